@@ -1106,8 +1106,15 @@ def run(prog, ctx):
     aux_slot_agreement(prog, res)
     raw_buffer_uses(prog, res, ents)
     unvalidated_scalars(prog, res, ents)
-    container_geometry(prog, res)
-    chains, chain_cover = slice_length_chains(prog, scope)
+    try:
+        container_geometry(prog, res)
+    except Exception as ex:       # a rule that cannot run leaves its obligations undecided; it must not take the pack down
+        res.tri(None, "C14.G", "C14.G|error", "rule could not run: %r" % (ex,))
+    try:
+        chains, chain_cover = slice_length_chains(prog, scope)
+    except Exception as ex:
+        chains, chain_cover = {}, {}
+        res.tri(None, "C14.P", "C14.P|error", "rule could not run: %r" % (ex,))
     n_chain = [0, 0, 0]
     for fid, (v, why) in sorted(chains.items()):
         if v is False:
